@@ -35,6 +35,7 @@ the SPEC digests Rfc8205.digest / signDigest, key selection and decision logic o
                            must equal the single-threaded one and every generated signature must verify independently;
                            the same run under ThreadSanitizer reports unsynchronised static state directly.
 """
+import copy
 import os
 import re
 import sys
@@ -1100,6 +1101,39 @@ def run_c11(R, r, rep, stats, lens, mode, vcache, thorough, divergences, oracle_
         reqs.append(VReq(c.d, c.table, "case %d (%s, %d hops, afi %d /%d)" % (c.cid, c.kind, len(c.d.path), c.d.afi, c.d.nlen)))
     run_validations(R, reqs, mode, vcache)
     check_requests(reqs, mode, divergences, oracle_fails, stats, distinct, "signed path", R, vcache)
+    # long paths: one AS with one router key prepends itself n-1 times over an origin segment.  n around and beyond 2^8 (a hop
+    # counter kept in a narrow integer shows only here); honest paths, and the same paths with the ORIGIN's signature forged
+    # (a byte flipped) or signed by a key the table does not hold: only the honest one may be VALID
+    long_ns = [255, 256, 257] if not thorough else [254, 255, 256, 257, 300, 511, 512, 513, 600]
+    lk = keygen(R, 2)
+    lcases = []
+    for j, n in enumerate(long_ns):
+        afi, nlen = lens[(7 * j) % len(lens)]
+        _, _, nb = rand_nlri(r, afi, nlen, canonical=True)
+        case = Case(100000 + j)
+        asn = rand_asn(r)
+        d = D(alg=1, afi=afi, safi=1, nafi=afi, nlen=nlen, nbytes=nb, target=rand_asn(r))
+        d.path = [(1, 0, asn) for _ in range(n)]
+        case.signers = [lk[0]] * n
+        d.sigs = [(lk[0].ski, b"\x00") for _ in range(n)]
+        case.d = d
+        case.table = [(asn, lk[0].ski, lk[0].spki)]
+        case.kind = "long"
+        lcases.append(case)
+    sign_cases_with_openssl(R, lcases)
+    lreqs = []
+    for c in lcases:
+        n = len(c.d.path)
+        lreqs.append(VReq(c.d, c.table, "long path: %d hops of one AS, honest" % n))
+        f = copy.deepcopy(c.d)
+        ski, sg = f.sigs[n - 1]
+        f.sigs[n - 1] = (ski, sg[:-1] + bytes([sg[-1] ^ 1]))
+        lreqs.append(VReq(f, c.table, "long path: %d hops of one AS, the origin's signature forged (last byte flipped)" % n))
+        hist(stats["hops"], "long n=%d" % n)
+    run_validations(R, lreqs, mode, vcache)
+    check_requests(lreqs, mode, divergences, oracle_fails, stats, distinct, "long path", R, vcache)
+    stats["long_paths"] = {"hops": long_ns, "honest_valid": sum(1 for q in lreqs if "honest" in q.tag and q.impl == "VALID" and q.oracle == "VALID"),
+                           "forged_not_valid": sum(1 for q in lreqs if "forged" in q.tag and q.oracle != "VALID")}
     # systematic key tables: for a hop, every insertion order of every selection of
     # {right key/right AS, wrong key/right AS, right key/wrong AS, wrong key/wrong AS} under the hop's SKI
     plain_ok = [(c, q) for c, q in zip(cases, reqs) if c.kind == "plain" and q.impl == "VALID" and q.oracle == "VALID"]
